@@ -278,6 +278,10 @@ func (e *Exec) resultNames(env *SpecEnv, fr *Frame, st *State) {
 
 func (e *Exec) checkPosts(retOrd int) {
 	fr := e.frames[0]
+	// vacuity guard: is this return reachable under the hypotheses collected so far?
+	if o := e.oblige(fmt.Sprintf("cover/ret#%d", retOrd), "cover", "this return is reachable (hypotheses not contradictory)", tFalse); o != nil {
+		o.Cover = true
+	}
 	env := e.topEnv(e.st)
 	env.paramsAtEntry = true
 	env.scopePos = fr.body.Rbrace // locals of the outermost block are visible to postconditions
@@ -908,12 +912,10 @@ func (e *Exec) applyExtern(fn *types.Func, es *ExternSpec, f FuncV, args []Val, 
 				e.assume(mkOr(mkEq(sv.T, "0"), sx(">", sx("root", sv.T), old.alloc)))
 			}
 			if sl, ok := res.(SliceV); ok {
-				// a freshly allocated backing array: register it as fresh so that writes to it need no frame
-				nb := e.allocRef("fresharr")
-				e.assume(mkEq(sl.Base, nb))
-				if e.freshRefs != nil {
-					e.freshRefs[sl.Base] = true
-				}
+				// a freshly allocated backing array (writes to it need no frame condition)
+				sl.Base = e.allocRef("fresharr")
+				sl.Off = "0"
+				res = sl
 			}
 		}
 		e.havocBoxed()
